@@ -27,6 +27,7 @@ CONFIGS = {
     "spec_looser": {"ip": {"EVENT": "1/s"}, "global": {"EVENT": "2/s"}, SPEC: {"EVENT": "3/s"}},
     "spec_other_cmd": {"ip": {"EVENT": "1/s", "REQ": "1/s"}, SPEC: {"REQ": "2/s"}},
     "spec_v6": {"ip": {"EVENT": "1/s"}, SPEC6: {"EVENT": "2/s"}},
+    "spec_longer_interval": {"ip": {"EVENT": "2/s"}, SPEC: {"EVENT": "2/m"}},
 }
 DTS = [0.0, 0.5, 1.0, 1.5, 59.5, 60.5]
 UNIT = {"s": 1, "m": 60, "h": 3600}
@@ -61,7 +62,8 @@ def alphabet(cfgname, tier):
         dts += [3540.0, 3600.5]
     if tier == "quick" and len(dts) > 4:
         dts = [0.0, 0.5, 1.0, 59.5, 60.5][: 5]
-    return [(dt, a, c) for dt in dts for a in addrs for c in cmds]
+    # "CLEANUP" = some connection closes at that moment (web.py calls rate_limiter.cleanup() in its finally block): no message at all
+    return [(dt, a, c) for dt in dts for a in addrs for c in cmds] + [(dt, addrs[0], "CLEANUP") for dt in (0.0, 1.5, 60.5)]
 
 
 def cases(tier):
@@ -134,6 +136,9 @@ def run_case(case):
         dt, addr, cmd = act
         now2 = now + dt
         restore(st, now2)
+        if cmd == "CLEANUP":
+            lim.cleanup()
+            return save(), hist, now2, False, ghost
         limited = lim.is_limited(addr, [cmd])
         st2 = save()
         app = applicable(rules, addr, cmd)
